@@ -230,3 +230,22 @@ package protocol
 //@     invariant ghost(qn) >= old(ghost(qn))
 //@     invariant mathint(s.nextRecv.v) == (mathint(old(s.nextRecv.v)) + ghost(qn) - old(ghost(qn))) % 4294967296
 //@     invariant forall(k, 0, 4611686018427387904, old(ghost(qn)) <= mathint(k) && mathint(k) < ghost(qn) ==> mathint(ghost(qlog)[mathint(k)]) == (mathint(old(s.nextRecv.v)) + mathint(k) - old(ghost(qn))) % 4294967296)
+//@
+//@ // Every acknowledgement refreshes the peer's advertised receive window - also a pure
+//@ // ACK that acknowledges nothing new (otherwise a window that re-opens while nothing is
+//@ // in flight is never learnt and the transfer stalls for good) - and never touches nextRecv.
+//@ func (s *Session) inputAck(seg *segment) (err error)
+//@   property C02 C13 C10
+//@   mode int
+//@   noframe
+//@   wraps_signed
+//@   requires s != nil && wfSegMeta(seg) && s.sendBuf != nil && s.rttStat != nil && s.cubicSendAlgorithm != nil
+//@   requires s.transportProtocol == common.PacketTransport ==> typeof(seg.metadata) == typeid(*dataAckStruct)
+//@   ensures s.transportProtocol == common.PacketTransport ==> err == nil && s.remoteWindowSize.v == uint32(payload(seg.metadata, *dataAckStruct).windowSize)
+//@   ensures s.nextRecv.v == old(s.nextRecv.v) && s.nextSend.v == old(s.nextSend.v)
+//@   loop 1:
+//@     invariant s.nextRecv.v == old(s.nextRecv.v) && s.nextSend.v == old(s.nextSend.v)
+//@     invariant payload(seg.metadata, *dataAckStruct).windowSize == old(payload(seg.metadata, *dataAckStruct).windowSize)
+//@
+//@ struct writers Session.nextRecv = {moveRecvBufToRecvQueue}
+//@   property C13 C02
